@@ -6,6 +6,7 @@ import (
 	"encoding/json"
 	"flag"
 	"fmt"
+	"io"
 	"os"
 	"os/exec"
 	"path/filepath"
@@ -378,6 +379,30 @@ func crashFailure(bin, prop, out, tail string) (failure, bool) {
 	if prop != "C20" {
 		return failure{}, false
 	}
+	if i := strings.Index(tail, "WATCHDOG-WEDGE: "); i >= 0 {
+		// the worker's watchdog found node code waiting for a lock nobody releases: the node is wedged
+		line := tail[i:]
+		if j := strings.Index(line, "\n"); j > 0 {
+			line = line[:j]
+		}
+		where := line
+		if j := strings.Index(where, "lock: "); j > 0 {
+			where = where[j+6:]
+		}
+		b, err := os.ReadFile(out + ".current")
+		if err != nil {
+			return failure{}, false
+		}
+		var cur struct {
+			RunIndex int             `json:"run_index"`
+			Scenario json.RawMessage `json:"scenario"`
+		}
+		if json.Unmarshal(b, &cur) != nil {
+			return failure{}, false
+		}
+		return failure{RunIndex: cur.RunIndex, Scenario: cur.Scenario, Violation: violation{Prop: prop, Rule: "node-wedged", Sig: "node-wedged " + where,
+			Detail: "the run stood still until the watchdog fired: " + strings.TrimPrefix(line, "WATCHDOG-WEDGE: ") + " (replaying re-executes the scenario and waits for the watchdog again)"}}, true
+	}
 	if !(strings.Contains(tail, "panic:") || strings.Contains(tail, "fatal error:") || strings.Contains(tail, "goroutine ")) || !strings.Contains(tail, "github.com/kubewharf/kubebrain/") {
 		return failure{}, false
 	}
@@ -526,8 +551,18 @@ func doReplay(bin, prop, path string) int {
 	defer os.Remove(out.Name())
 	cmd := exec.Command(bin, "-test.run", "^TestWorker$", "-test.timeout", "0")
 	cmd.Env = append(os.Environ(), "VERIF_PROP="+prop, "VERIF_REPLAY="+path, "VERIF_OUT="+out.Name(), "GOMAXPROCS=2")
-	cmd.Stderr = os.Stderr
+	var errBuf strings.Builder
+	cmd.Stderr = io.MultiWriter(os.Stderr, &errBuf)
 	if err := cmd.Run(); err != nil {
+		if i := strings.Index(errBuf.String(), "WATCHDOG-WEDGE: "); i >= 0 && prop == "C20" {
+			line := errBuf.String()[i:]
+			if j := strings.Index(line, "\n"); j > 0 {
+				line = line[:j]
+			}
+			fmt.Printf("  rule=node-wedged: %s\n", strings.TrimPrefix(line, "WATCHDOG-WEDGE: "))
+			fmt.Printf("VIOLATION property=%s replay=%s\n", prop, path)
+			return 1
+		}
 		fmt.Fprintln(os.Stderr, "replay worker failed:", err)
 		return 2
 	}
